@@ -142,12 +142,13 @@ def _make(cpl, U, order, method, em_running):
     return sc
 
 
-def _domain_scale(s):
-    assume(s - 1, ">0")
-    assume(100000 - s, ">0")
+def _domain_scale(s, box=None):
+    lo, hi = box or (1, 100000)
+    assume(s - lo, ">0")
+    assume(hi - s, ">0")
 
 
-def case_history(log, order, method, em_running, nfs_list):
+def case_history(log, order, method, em_running, nfs_list, box=None):
     cpl = _load()
     log.encode(cpl.Couplings.a, cpl.Couplings.compute)
     D = Decider(log, max_replays=3)
@@ -160,7 +161,7 @@ def case_history(log, order, method, em_running, nfs_list):
                 k = len(nfs)
                 scales = [SR.var("s%d" % i) for i in range(k)]
                 for s in scales:
-                    _domain_scale(s)
+                    _domain_scale(s, box)
                 deltas = [(SR.var("d%d" % i), SR.var("e%d" % i)) for i in range(k)]
                 sc = _make(cpl, U, order, method, em_running)
                 aref = [sc.a_ref[0], sc.a_ref[1]]
@@ -191,7 +192,7 @@ def case_history(log, order, method, em_running, nfs_list):
         log.path_stats(pm)
 
 
-def case_inductive(log, order, method, em_running, nf_q, npre):
+def case_inductive(log, order, method, em_running, nf_q, npre, box=None):
     cpl = _load()
     log.encode(cpl.Couplings.a, cpl.Couplings.compute)
     D = Decider(log, max_replays=3)
@@ -211,7 +212,7 @@ def case_inductive(log, order, method, em_running, nf_q, npre):
                     key = (a0, a1, nfp, nl, s0, s1)
                     sc.cache[key] = U("rge", a0, a1, nfp, nl if (em_running and order[1] > 0) else 0, s0, s1)
             s = SR.var("s0")
-            _domain_scale(s)
+            _domain_scale(s, box)
             d, e = SR.var("d0"), SR.var("e0")
             ret = sc.a(s, nf_q)
             got = [ret[0], ret[1]]
@@ -289,8 +290,8 @@ def main():
     chk = H.Check("C17")
     thorough = H.tier() == "thorough"
     preimport("eko.couplings")
-    chk.bounds = ["histories of 1-3 queries; query scales free symbols in (1, 1e5) GeV^2 (forks cover scales equal to the reference, to a matching scale, to the tau "
-                  "mass and to earlier queries), requested nf in {3,4,5, None = default flow} around the reference nf=4 (quick: all 9 explicit pairs, 6 pairs with default-flow queries, the triple (4,4,4); thorough: 11 triples)",
+    chk.bounds = ["histories of 1-3 queries; query scales free symbols in (1, 1e5) GeV^2 (histories containing a default-flow query: (4, 40) GeV^2 around the charm and bottom matching scales; a single default-flow query and, in the thorough tier, pairs explicit+default: full range) (forks cover scales equal to the reference, to a matching scale, to the tau "
+                  "mass and to earlier queries), requested nf in {3,4,5, None = default flow} around the reference nf=4 (quick: all 9 explicit pairs, 6 pairs with default-flow queries, the triple (4,4,4); thorough: 9 triples)",
                   "caller mutates both entries of every returned array in place by free symbolic amounts",
                   "orders (3,0) (constant + logarithmic matching terms, matching ratios 2, 0.5, 1.5) and (3,1) [running alpha_em: two-leg evolution through the tau mass]; methods expanded and exact (dispatch only: the RGE solution is uninterpreted)",
                   "inductive step: 0-2 arbitrary valid cache entries with symbolic keys, one query, validity of the whole cache afterwards -> histories of any length"]
@@ -303,23 +304,30 @@ def main():
     chk.assumptions = ["matching scales concrete (6, 12.5, 45000 GeV^2), reference (9 GeV^2, nf=4): the cache logic does not depend on their values"]
     O = (3, 0)  # NNLO: the matching factors carry a constant term, so the upward and downward tables differ visibly
     pairs = [list(p) for p in itertools.product((3, 4, 5), repeat=2)]
-    triples = [[4, 4, 4]] if not thorough else [[4, 4, 4], [5, 4, 5], [3, 5, 3], [3, 4, 5], [5, 4, 3], [4, 3, 4], [4, 5, 4], [5, 3, 5], [3, 3, 3], [5, None, 3], [None, 4, None]]
-    chk.case("history.expanded.o30.len1", case_history, order=O, method="expanded", em_running=False, nfs_list=[[3], [4], [5], [None]])
+    triples = [[4, 4, 4]] if not thorough else [[4, 4, 4], [5, 4, 5], [3, 5, 3], [3, 4, 5], [4, 3, 4], [5, 3, 5], [3, 3, 3], [5, None, 3], [None, 4, None]]
+    chk.case("history.expanded.o30.len1", case_history, order=O, method="expanded", em_running=False, nfs_list=[[3], [4], [5]])
+    chk.case("history.expanded.o30.len1.d", case_history, order=O, method="expanded", em_running=False, nfs_list=[[None]])
     for pr in pairs:
         chk.case("history.expanded.o30.len2.%d%d" % tuple(pr), case_history, order=O, method="expanded", em_running=False, nfs_list=[pr])
     # default-flow queries (nf_to=None -> nf from the position of the scale among the matching scales) mixed with explicit ones
+    DBOX = (4, 40)  # default-flow cases: scales around the charm and bottom matching scales (6, 12.5), above the tau mass -> default nf in {3,4,5}
     for pr in ([3, None], [4, None], [5, None], [None, 3], [None, 5], [None, None]):
-        chk.case("history.expanded.o30.len2.%s" % "".join("d" if x is None else str(x) for x in pr), case_history, order=O, method="expanded", em_running=False, nfs_list=[pr])
+        wide = thorough and None in pr and pr != [None, None]
+        chk.case("history.expanded.o30.len2.%s" % "".join("d" if x is None else str(x) for x in pr), case_history, order=O, method="expanded", em_running=False, nfs_list=[pr],
+                 box=None if wide else DBOX)
     for t in triples:
-        chk.case("history.expanded.o30.len3.%s" % "".join("d" if x is None else str(x) for x in t), case_history, order=O, method="expanded", em_running=False, nfs_list=[t])
+        chk.case("history.expanded.o30.len3.%s" % "".join("d" if x is None else str(x) for x in t), case_history, order=O, method="expanded", em_running=False, nfs_list=[t],
+                 box=DBOX if None in t else None)
     for pr in ([4, 4], [5, 3], [3, None]):
-        chk.case("history.exact.o30.len2.%s" % "".join("d" if x is None else str(x) for x in pr), case_history, order=O, method="exact", em_running=False, nfs_list=[pr])
+        chk.case("history.exact.o30.len2.%s" % "".join("d" if x is None else str(x) for x in pr), case_history, order=O, method="exact", em_running=False, nfs_list=[pr],
+                 box=DBOX if None in pr else None)
     for pr in ([[4, 4]] if not thorough else [[4, 4], [3, 4]]):
         chk.case("history.expanded.o31.running.len2.%d%d" % tuple(pr), case_history, order=(3, 1), method="expanded", em_running=True, nfs_list=[pr])
     chk.case("history.exact.o31.running.len2.44", case_history, order=(3, 1), method="exact", em_running=True, nfs_list=[[4, 4]])
     for nf_q in (3, 4, 5, None):
         for npre in ((1, 2) if (thorough or nf_q == 4) else (1,)):
-            chk.case("inductive.expanded.o30.nf%s.pre%d" % ("d" if nf_q is None else nf_q, npre), case_inductive, order=O, method="expanded", em_running=False, nf_q=nf_q, npre=npre)
+            chk.case("inductive.expanded.o30.nf%s.pre%d" % ("d" if nf_q is None else nf_q, npre), case_inductive, order=O, method="expanded", em_running=False, nf_q=nf_q, npre=npre,
+                     box=DBOX if nf_q is None else None)
     chk.case("inductive.exact.o31.running.nf4.pre1", case_inductive, order=(3, 1), method="exact", em_running=True, nf_q=4, npre=1)
     return chk.run()
 
